@@ -546,3 +546,162 @@ func delegatesTo(fn *ssa.Function, helper string) (bool, string) {
 	}
 	return true, ""
 }
+
+func init() {
+	scans["optioner-fresh"] = scanOptionerFresh
+}
+
+// scanOptionerFresh: parser/renderer components that accept options lazily (they implement parser.SetOptioner or
+// renderer.SetOptioner, and Parse/Render's Once closures push the instance's options into them) must belong to ONE
+// configured instance, otherwise configuring one instance changes another.  Obligations: (1) no package-level variable
+// holds such a component, (2) every function of the module that returns such a component returns an object it
+// allocated itself.
+func scanOptionerFresh(P *Program) []*Obl {
+	var ifaces []*types.Interface
+	for _, path := range []string{modPath + "/parser", modPath + "/renderer"} {
+		if tp := P.tpkgByPath[path]; tp != nil {
+			if o := tp.Scope().Lookup("SetOptioner"); o != nil {
+				if it, ok := o.Type().Underlying().(*types.Interface); ok {
+					ifaces = append(ifaces, it)
+				}
+			}
+		}
+	}
+	if len(ifaces) == 0 {
+		return []*Obl{scanObl("optioner-fresh", false, "SetOptioner interfaces not found")}
+	}
+	if os.Getenv("GVC_DEBUG_SCAN") != "" {
+		fmt.Fprintln(os.Stderr, "optioner ifaces:", len(ifaces))
+	}
+	isOptioner := func(t types.Type) bool {
+		pt, ok := t.(*types.Pointer)
+		if !ok {
+			return false
+		}
+		nt, ok := pt.Elem().(*types.Named)
+		if !ok || nt.Obj().Pkg() == nil || !strings.HasPrefix(nt.Obj().Pkg().Path(), modPath) {
+			return false
+		}
+		if _, isStruct := nt.Underlying().(*types.Struct); !isStruct {
+			return false
+		}
+		// configuration structs themselves (html.Config, TableConfig, ...) are embedded by value in their owners
+		if strings.HasSuffix(nt.Obj().Name(), "Config") {
+			return false
+		}
+		for _, it := range ifaces {
+			if types.Implements(pt, it) {
+				return true
+			}
+		}
+		return false
+	}
+	var out []*Obl
+	nTypes := map[string]bool{}
+	// (1) globals
+	for _, sp := range P.prog.AllPackages() {
+		if !strings.HasPrefix(sp.Pkg.Path(), modPath) {
+			continue
+		}
+		var names []string
+		for n := range sp.Members {
+			names = append(names, n)
+		}
+		sort.Strings(names)
+		for _, n := range names {
+			g, ok := sp.Members[n].(*ssa.Global)
+			if !ok {
+				continue
+			}
+			if isOptioner(deref(g.Type())) {
+				out = append(out, scanObl("optioner-fresh:global:"+sp.Pkg.Name()+"."+n, false, "package-level variable of a component type that takes per-instance options: "+deref(g.Type()).String()))
+			}
+		}
+		// stores of optioner values into interface-typed globals (in the initialiser or anywhere else)
+	}
+	for _, fn := range P.allFuncs {
+		for _, b := range fn.Blocks {
+			for _, in := range b.Instrs {
+				if st, ok := in.(*ssa.Store); ok {
+					if g, ok := st.Addr.(*ssa.Global); ok {
+						if mi, ok := st.Val.(*ssa.MakeInterface); ok && isOptioner(mi.X.Type()) {
+							out = append(out, scanObl("optioner-fresh:global:"+g.Name(), false, "a component that takes per-instance options is stored in package-level variable "+g.Name()))
+						}
+					}
+				}
+				r, ok := in.(*ssa.Return)
+				if !ok {
+					continue
+				}
+				for _, rv := range r.Results {
+					v := traceLocal(rv)
+					if mi, ok := v.(*ssa.MakeInterface); ok {
+						v = traceLocal(mi.X)
+					}
+					if os.Getenv("GVC_DEBUG_SCAN") != "" && strings.Contains(fn.Name(), "NewATXHeadingParser") {
+						fmt.Fprintf(os.Stderr, "ret %s: %T %s optioner=%v\n", fn.Name(), v, v.Type(), isOptioner(v.Type()))
+					}
+					if !isOptioner(v.Type()) {
+						continue
+					}
+					nTypes[v.Type().String()] = true
+					// methods returning their receiver (fluent setters) are fine: the object is the caller's
+					if p, ok := traceLocal(v).(*ssa.Parameter); ok && len(fn.Params) > 0 && p == fn.Params[0] && fn.Signature.Recv() != nil {
+						continue
+					}
+					fresh := P.valueIsFreshAlloc(rv, fn, 0)
+					out = append(out, scanObl("optioner-fresh:"+fnDisplayName(fn)+":"+v.Type().String(), fresh, "returns a component that takes per-instance options but is not allocated by this call (shared between configured instances)"))
+				}
+			}
+		}
+	}
+	// package initialisers store globals too
+	for _, ini := range P.inits {
+		for _, b := range ini.Blocks {
+			for _, in := range b.Instrs {
+				if st, ok := in.(*ssa.Store); ok {
+					if g, ok := st.Addr.(*ssa.Global); ok {
+						v := st.Val
+						if mi, ok := v.(*ssa.MakeInterface); ok {
+							v = mi.X
+						}
+						if isOptioner(v.Type()) {
+							out = append(out, scanObl("optioner-fresh:global:"+g.Name(), false, "package initialiser stores a component that takes per-instance options in "+g.Name()))
+						}
+					}
+				}
+			}
+		}
+	}
+	if len(out) == 0 {
+		out = append(out, scanObl("optioner-fresh", false, "no constructor of an option-taking component found (scan is vacuous)"))
+	}
+	return out
+}
+
+// traceLocal follows loads of single-assignment locals (NaiveForm keeps locals as Alloc + Store + load).
+func traceLocal(v ssa.Value) ssa.Value {
+	for i := 0; i < 6; i++ {
+		u, ok := v.(*ssa.UnOp)
+		if !ok {
+			return v
+		}
+		a, ok := u.X.(*ssa.Alloc)
+		if !ok {
+			return v
+		}
+		var st *ssa.Store
+		n := 0
+		for _, r := range *a.Referrers() {
+			if s, ok := r.(*ssa.Store); ok && s.Addr == a {
+				st = s
+				n++
+			}
+		}
+		if n != 1 {
+			return v
+		}
+		v = st.Val
+	}
+	return v
+}
